@@ -10,3 +10,15 @@ Theorem C06_api_screen_additive : forall shell_l ecp_atom mask blk0 gk gl,
              (fold_right Rplus 0%R (map (fun e => if mask s1 e then 0%R else blk0 s1 s2 e k l) (seq 0 (length ecp_atom)))).
 Proof. exact api_screen_additive. Qed.
 Print Assumptions C06_api_screen_additive.
+
+(* the same at the shell-pair level (model of compute_shell_pair's per-angular-momentum screen, ShellPairModel.combine_pair,
+   tied to ecpint.cpp by C01's K-a correspondence): the screened block entry is the unscreened one minus the skipped local
+   part minus the skipped semi-local channels -- nothing else changes, for every mask *)
+From Coq Require Import ZArith.
+From LV Require Import ShellPair.ShellPairModel ShellPair.ShellPairScreen.
+Theorem C06_pair_screen_additive : forall L mask noType1 t1 (t2 : nat -> Z -> R),
+  combine_pair ROps L mask noType1 t1 t2
+  = Rminus (Rminus (combine_pair ROps L (fun _ => true) noType1 t1 t2) (if orb (mask L) noType1 then 0%R else t1))
+           (Rsum (map (fun l => if mask l then 0%R else t2_l t2 l) (seq 0 L))).
+Proof. exact pair_screen_additive. Qed.
+Print Assumptions C06_pair_screen_additive.
